@@ -536,7 +536,7 @@ def run(args, log):
             'distinct_nontrivial': len(nontrivial) + value_distinct,
             'rule': 'complete enumeration of every #[repr(C)] struct (%d) and every extern "C" fn (%d) / static (%d) parsed from src/lib.rs, for both real widths: C probe (clang: sizeof/_Alignof/offsetof/sizeof(field)) vs Rust probe '
                     '(bare rustc on lib.rs + appended module: size_of/align_of/offset_of!/field sizes), positional field names, offsets, sizes and canonical machine types; prototypes from clang\'s JSON AST vs the Rust declarations (count, order, machine '
-                    'types, return type) and nm on the objects compiled from src/*.c; plus Hypothesis-generated per-field values (seeded) written through C field assignments and read through Rust field reads, and vice versa. '
+                    'types, return type; for the order of same-typed parameters the parameter names of both sides, wherever they form the same set of distinct names) and nm on the objects compiled from src/*.c; plus Hypothesis-generated per-field values (seeded) written through C field assignments and read through Rust field reads, and vice versa. '
                     'non-trivial = struct with >= 2 distinct field types or function with >= 3 parameters, and every value round trip with >= 2 non-zero leaves; distinct = distinct declarations per width + distinct value tuples' % (len(rstructs), len(rfns), len(rstatics)),
             'samples': samples if samples else facts[:5],
             'facts_compared': len(facts), 'value_round_trips': value_cases, 'structs': sorted(rstructs.keys()), 'functions': len(rfns),
